@@ -4,7 +4,7 @@ against it, revert.  usage: mut.py <PROP> <file> <old> <new> [--only sub] [--cou
 The scratch worktree lives at /tmp/mut (created on demand; remove with
 `git -C /repo worktree remove --force /tmp/mut`)."""
 import os, subprocess, sys
-WT = "/tmp/mut"
+WT = os.environ.get("MUT_WT", "/tmp/mut")
 def sh(*a, **k): return subprocess.run(a, **k)
 def main():
     args = sys.argv[1:]
